@@ -386,6 +386,32 @@ func runChain(r *report.Run, cc *sim.ChainCase) *report.Failure {
 				return f
 			}
 			r.Class("chain-boundary-compared")
+			// contexts are handed around as Clone()s: a clone that moves on (with a copy of the state) must not
+			// change what the context that stays behind answers
+			if e%3 == 2 && len(l.Sp.ActiveIndices(l.St, e+3)) > 0 {
+				if sib, err := l.ForkLock(); err == nil {
+					spe := l.Sp.P.SLOTS_PER_EPOCH
+					res := sib.StepSkip(ctx, sib.St.Slot+(1+e%3)*spe+1)
+					if res.RefErr == nil && res.LibErr == nil && !res.LibPanic {
+						var f2 *report.Failure
+						er, panicked, blocked := sim.GuardTimeout(120*time.Second, func() error {
+							f2 = compareAssignments(r, l.Sp, l.LibSpec, l.St, l.Lib.BeaconState, l.Epc, fmt.Sprintf("chain at slot %d (live context, after a Clone() of it advanced %d epochs with a copy of the state)", l.St.Slot, 1+e%3))
+							return nil
+						})
+						if er == sim.ErrPoisoned {
+							return nil
+						}
+						if blocked || panicked {
+							return report.Failf("lookup/blocked-or-panic", "slot %d after a clone advanced: %v", l.St.Slot, er)
+						}
+						if f2 != nil {
+							f2.Sig = "after-clone-advanced/" + f2.Sig
+							return f2
+						}
+						r.Class("chain-boundary-recompared-after-clone-advanced")
+					}
+				}
+			}
 		}
 	}
 	return nil
